@@ -890,8 +890,11 @@ class OverlayStore(Store):
                 self.overlay.store(key, self.fallback.get_bytes(key), metadata)
             except KeyNotFoundStoreException:
                 pass
-        self._unremove(key)
         self.overlay.store_metadata(key, metadata)
+        if self.overlay.contains(key):
+            # only a key the overlay now really holds may lose its tombstone: an overlay that keeps no
+            # metadata-only entries (a directory store) would otherwise let the removed fall-back entry show through
+            self._unremove(key)
         self.on_metadata_changed(key)
 
     def remove(self, key):
